@@ -229,6 +229,14 @@ def bounded_native(ck, model=None):
                               "input": {"beta_deg": beta_deg, "alt": alt, "E": E, "tops": [t1, t2]}, "observed": [float(g1[0]), float(g2[0])]})
             if not (float(g1[0]) <= float(ref[0]) * (1 + 1e-6)):
                 fails.append({"obligation": "bounded.kernel.between", "clause": "removing light cannot increase the density", "input": {"beta_deg": beta_deg, "alt": alt, "E": E, "cloud_top": t1}, "observed": [float(g1[0]), float(ref[0])]})
+    # cloud tops between the same two step altitudes (doubles that single precision cannot tell from the step) must give identical results
+    from contracts import C06 as _C06
+
+    cc = _C06.cloud_cast_native()
+    n += 146
+    if cc.get("violated"):
+        fails.append({"obligation": "bounded.kernel.between_steps", "clause": "two cloud tops strictly between the same two consecutive step altitudes remove the same steps: identical density and angle",
+                      "input": cc["input"], "observed": cc["observed"]})
     out = {"evaluations": n, "failures": fails}
     if model is None:
         _BN["o"] = out
